@@ -18,3 +18,4 @@ INVARIANT BufBound
 INVARIANT PartsBound
 INVARIANT GuardPurity
 INVARIANT PrefixOfRef
+INVARIANT PartsLimitExact
